@@ -1498,6 +1498,51 @@ def u_validation(W, sk):
         SL.check_unchanged(W, f"stock[{case}]", snaps)
 
 
+@unit(
+    "stocks.to_stock_type",
+    props=["C13", "C15"],
+    targets=["flodym.stocks.Stock.to_stock_type", "flodym.stocks.Stock.validate_stock_arrays", "flodym.stocks.DynamicStockModel.init_lifetime_model"],
+    skeletons=lambda tier: [{"to": t} for t in ("inflow", "stock", "flow")],
+    note="a flow-driven stock over (t, r) with given arrays is converted into another stock class: the new object carries the same dimensions and the same entries in well-formed arrays, the source stock and its arrays are unchanged",
+)
+def u_to_stock_type(W, sk):
+    import flodym.stocks as st
+    import flodym.lifetime_models as lt
+    from flodym.flodym_arrays import StockArray
+    from .dimensions import mk_set
+
+    T = W.dim("t", name="Time", lo=3)
+    R = W.dim("r")
+    if not W.symbolic:
+        T.items[:] = [2000 + 2 * k for k in range(len(T.items))]
+    dims = mk_set(W, [T, R])
+    arrs = {nm: W.array(nm, [T, R], cls=StockArray) for nm in ("stock", "inflow", "outflow")}
+    made = W.call(lambda: st.SimpleFlowDrivenStock(dims=dims, name="s", time_letter="t", **arrs))
+    W.prove("source_stock.constructed", made.kind == "return", detail=repr(made))
+    if made.kind != "return":
+        return
+    src = made.value
+    snaps = SL.snapshot(W, [src.stock, src.inflow, src.outflow])
+    labs = {nm: SL.lab(W, getattr(src, nm)) for nm in arrs}
+    cls = {"inflow": st.InflowDrivenDSM, "stock": st.StockDrivenDSM, "flow": st.SimpleFlowDrivenStock}[sk["to"]]
+    kw = {} if sk["to"] == "flow" else {"lifetime_model": lt.NormalLifetime}
+    out = W.call(lambda: src.to_stock_type(cls, **kw))
+    W.prove("to_stock_type.returns", out.kind == "return", detail=repr(out))
+    if out.kind == "return":
+        new = out.value
+        W.prove("to_stock_type.class", type(new) is cls)
+        W.prove("to_stock_type.dims", [d.letter for d in new.dims.dim_list] == ["t", "r"])
+        for nm in arrs:
+            a = getattr(new, nm)
+            if SL.check_wf(W, f"to_stock_type.{nm}", a):
+                A = SL.lab(W, a)
+                ok = A.letters == ("t", "r")
+                W.prove(f"to_stock_type.{nm}.over_the_stock_dimensions", ok)
+                if ok:
+                    W.forall(f"to_stock_type.{nm}.entries", [W.size_of(T), W.size_of(R)], (lambda A, L: lambda idx: W.num_eq(A.at({"t": idx[0], "r": idx[1]}), L.at({"t": idx[0], "r": idx[1]})))(A, labs[nm]))
+    SL.check_unchanged(W, "to_stock_type.source", snaps)
+
+
 # ----------------------------------------------------------------------------------------
 # lapack solver with a symbolic number of items in the non-time dimensions: independent-iterations loop rule
 
